@@ -1,0 +1,9 @@
+//go:build verif
+
+package dns
+
+// Exported wrappers over unexported pure helpers, for the verification harness in /verif.
+// This file is only compiled with the "verif" build tag and adds no behaviour.
+
+// VerifNormalizedString exposes normalizedString (sanitize.go).
+func VerifNormalizedString(r RR) string { return normalizedString(r) }
